@@ -1658,7 +1658,7 @@ namespace vh
   };
 
   template<std::size_t L>
-  std::string DenseCfg<L>::rates(Tok& t, std::size_t ncell, std::size_t nproc, bool reuse)
+  std::string DenseCfg<L>::rates(Tok& t, std::size_t ncell, std::size_t nproc, bool reuse, bool positional)
   {
     using DM = typename DenseOf<L>::type;
     using SM = SparseOf<L, false>;
@@ -1789,13 +1789,23 @@ namespace vh
       state.conditions_[c].air_density_ = t.flt();
     }
     auto vals = t.flts(ncell * labels.size());
-    for (std::size_t l = 0; l < labels.size(); ++l)
+    if (positional)
     {
-      std::vector<double> col(ncell);
-      for (std::size_t c = 0; c < ncell; ++c)
-        col[c] = vals[c * labels.size() + l];
-      state.SetCustomRateParameter(labels[l], col);
+      // the positional setter: one row per cell, columns in the State's own label order
+      std::vector<std::vector<double>> rows(ncell, std::vector<double>(state.custom_rate_parameter_map_.size(), 0.0));
+      for (std::size_t l = 0; l < labels.size(); ++l)
+        for (std::size_t c = 0; c < ncell; ++c)
+          rows[c][state.custom_rate_parameter_map_.at(labels[l])] = vals[c * labels.size() + l];
+      state.UnsafelySetCustomRateParameters(rows);
     }
+    else
+      for (std::size_t l = 0; l < labels.size(); ++l)
+      {
+        std::vector<double> col(ncell);
+        for (std::size_t c = 0; c < ncell; ++c)
+          col[c] = vals[c * labels.size() + l];
+        state.SetCustomRateParameter(labels[l], col);
+      }
     solver.CalculateRateConstants(state);
     Out o;
     o.os << "rates";
